@@ -12,6 +12,10 @@ import anyio
 from . import vclock
 from .kernel import EXN, exc_name
 
+# run() results that are neither None nor an int (truthy and falsy ones)
+NON_INTS = [lambda: "text", lambda: "", lambda: [], lambda: {}, lambda: 0.0, lambda: 2.5, lambda: b"", lambda: (0,),
+            lambda: object()]
+
 TICK = 1.0
 
 
@@ -31,6 +35,10 @@ def run_runner_case(case: dict[str, Any]) -> dict[str, Any]:
         def cb(*args: Any) -> None:
             arg = "-" if not spec["pass"] else (exc_name(args[0]) if args else "missing")
             log.append(["td", spec["id"], arg])
+            # clean-up that is only known at shutdown: registered while the root context is closing
+            for late in spec.get("late", []):
+                add_teardown_callback(make_cb(late), late["pass"])
+                log.append(["lreg", late["id"], late["pass"]])
 
         if spec["async"]:
             async def acb(*args: Any) -> None:
@@ -106,7 +114,7 @@ def run_runner_case(case: dict[str, Any]) -> dict[str, Any]:
                 raise EXN[ending["e"]]()
             if kind == "cliReturn":
                 r = ending["r"]
-                return None if r == "none" else ("text" if r == "other" else ending["n"])
+                return None if r == "none" else (NON_INTS[ending.get("ov", 0)]() if r == "other" else ending["n"])
             return 0
 
         ns["run"] = run
